@@ -9,7 +9,8 @@ Proof (Props/C15.lean, helper lemmas in Lemmas/LoadSpec.lean), for ALL images / 
    the eagerly loaded part shows: all header fields, name, whole data buffer, data size),
    `freeData_getData`, `interleaving_eq`, `seg_interleaving_eq` (list induction over any sequence of
    request / release / arbitrary disturbance of the stream's position and error state);
- * whole load, every image without translation (length < 2^63): `lazy_eq_eager` / `lazy_eq_eager_obs`
+ * whole load, every stream (length < 2^63) under EVERY address translation table — no hypothesis on the
+   table or on what the container holds (since the F16 repair): `lazy_eq_eager` / `lazy_eq_eager_obs`
    : if the eager load() succeeds, the lazy load() succeeds with the same header and, for every section and
    segment and any interleaving, the same observations (simulation of the two runs through the section loop
    `loadSectionsLoop_sim`, the name step `loadNames_sim`, the segment loop `loadSegmentsLoop_sim`).
@@ -27,8 +28,9 @@ Proof (Props/C15.lean, helper lemmas in Lemmas/LoadSpec.lean), for ALL images / 
  Former finding F16 (fixes/16-stream-size-with-translator.patch): with a translation table `stream_size` was
  SIZE_MAX, so an eager load of a truncated container made a short data read, kept failbit and lost every later
  section header, while the lazy load read them.  The loader now records the real stream size with a table too
- (model: `streamSizeOf`, proved independent of the table: `streamSizeOf_tr_indep`); on the former witness both
- modes agree: `lazy_eager_translated_truncated_agree` (corpus/c15/f16-translated-truncated-container.case).
+ (model: `streamSizeOf`, proved independent of the table: `streamSizeOf_tr_indep_ls`), which is what lets
+ `lazy_eq_eager` drop its former hypothesis `o.trans = []`; on the former witness both modes agree:
+ `lazy_eager_translated_truncated_agree` (corpus/c15/f16-translated-truncated-container.case).
 Correspondence + oracle:
 object 0 loads the image eagerly, object 1 lazily and is then driven through a random interleaving of
 data requests and releases (length <= 24) before both are observed; object 2 loads a container
@@ -75,9 +77,11 @@ TRUSTED = []
 KEEP_FIRST = 2
 
 
-def container(rng, img):
+def container(rng, img, last=None, force=()):
     """cut the image into 1-6 ranges at table/section boundaries and place them, shuffled and with
-    gaps, in a container; returns (container bytes, table [(start,size,mapped)])"""
+    gaps, in a container; returns (container bytes, table [(start,size,mapped)]).
+    `force`: offsets that become cuts if no read range straddles them; `last`: the range holding
+    this offset is placed at the end of the container"""
     d = elfspec.decode(img)
     cuts = {0, len(img)}
     if d:
@@ -91,10 +95,13 @@ def container(rng, img):
         cand = {a for a, n in reads} | {a + n for a, n in reads}
         cand = [c for c in cand if 0 < c < len(img) and not any(a < c < a + n for a, n in reads)]
         rng.shuffle(cand)
-        cuts |= set(cand[:rng.randint(0, 5)])
+        cuts |= set(cand[:rng.randint(0, 5)]) | (set(force) & set(cand))
     cuts = sorted(cuts)
     ranges = [(cuts[i], cuts[i + 1] - cuts[i]) for i in range(len(cuts) - 1)]
     order = list(range(len(ranges))); rng.shuffle(order)
+    if last is not None:
+        hit = [i for i in order if ranges[i][0] <= last < ranges[i][0] + ranges[i][1]]
+        order = [i for i in order if i not in hit] + hit
     cont = bytearray(rng.choice([0, 7, 64]))
     table = []
     for i in order:
@@ -138,7 +145,14 @@ def damaged_container(rng, img):
              [(g["p_offset"], g["p_filesz"]) for g in d["segments"] if g["data"]]
         rs = [(a, n) for a, n in rs if n > 0]
         if rs:
+            # the piece holding the victim's data goes last (so the other pieces, the tables among
+            # them, survive) and is cut inside that data
             a, n = rng.choice(rs)
+            try:
+                c2, t2 = container(rng, img, last=a, force=(a, a + n))
+                cont, table = bytearray(c2), list(t2)
+            except Exception:
+                pass
             cut = translated_pos(table, a) + rng.randrange(0, n)
             cont = cont[:max(1, min(cut, len(cont)))]
         how = "cut-in-data"
